@@ -179,7 +179,7 @@ def run(ctx):
                 "enumeration, random deeper ones by -simulate, seed-dependent sample) over update/encrypt/decrypt/digest/verify/"
                 "hexdigest/hexverify/encrypt_and_digest/decrypt_and_verify/read/copy with boundary argument lengths, for GCM, CCM "
                 "(declared and undeclared lengths), EAX, SIV, OCB, ChaCha20-Poly1305, the classic modes CBC/CFB/OFB/CTR/OpenPGP/ECB over seven block-cipher "
-                "configurations, ChaCha20 (with seek), Salsa20, ARC4, KW and KWP (seal/unseal of genuine, forged, short and odd-length strings) and 40 hash/XOF/MAC configurations; "
+                "configurations, ChaCha20 (with seek), Salsa20, ARC4, KW and KWP (seal/unseal of genuine, forged, short and odd-length strings) and 42 hash/XOF/MAC configurations (TupleHash included: one item per update); "
                 "distinct_nontrivial = distinct (family, config, sequence) containing at least one accepted call")
     ctx.assume("the one-shot reference values are the library's own (that they equal the standards is C02/C03's subject)")
     ctx.assume("projection of private attributes (_next, caches, lengths) degrades to API-only observation if an attribute disappears")
